@@ -436,8 +436,11 @@ def build_automaton(aut):
 def build_graph(gd):
     from pytenet.opgraph import OpGraph, OpGraphNode, OpGraphEdge
     g = OpGraph([OpGraphNode(nid, [], [], q) for nid, q in gd['nodes']], [], list(gd['term']))
+    shared = {}
     for eid, n0, n1, opics in gd['edges']:
-        g.add_connect_edge(OpGraphEdge(eid, [n0, n1], [(int(o), c) for o, c in opics]))
+        # parallel edges are built from one caller-owned [from, to] list object (the constructor has to copy it)
+        nids = shared.setdefault((n0, n1), [n0, n1])
+        g.add_connect_edge(OpGraphEdge(eid, nids, [(int(o), c) for o, c in opics]))
     return g
 
 
